@@ -198,6 +198,12 @@ class Check:
         for th in theorems:
             if not good.get(th):
                 self.broken.append("theorem " + th)
+        if ok and self.tier == "thorough":
+            # independent re-check of the compiled modules by the toolchain's leanchecker
+            rc, o = sh(["lake", "env", "leanchecker"] + modules, cwd=LEAN, timeout=1800)
+            self.coverage["leanchecker"] = "ok" if rc == 0 else "FAILED: " + o[-500:]
+            if rc != 0:
+                self.broken.append("leanchecker " + " ".join(modules))
         hyg = self.hygiene()
         if hyg:
             self.broken.append("hygiene: " + "; ".join(hyg))
